@@ -518,6 +518,10 @@ COMMON_TRUSTED = [
 
 def standard_proof_phase(run, prop, targets, thorough=False):
     """(T): build, re-check property file, assumptions, forbidden constructs. Returns ok."""
+    # (G) regenerate the generated parts of the model from /repo's current sources
+    rc, tout, dt = sh(["python3", os.path.join(VERIF, "tools", "translate.py")], timeout=300)
+    run.checker_cmds.append("python3 tools/translate.py (regenerate coq/gen/*.v from /repo)")
+    run.obligation(rc == 0, "regeneration of coq/gen/*.v from /repo (translator)", tout)
     if thorough:
         coq_clean()
     ok, out, dt = coq_make(targets)
